@@ -77,6 +77,10 @@ class StateHooks(Hooks):
             exc = st.alloc(eng.program.cls("exceptions.BackgroundThreadError"), {"args": ("stored",), "source_exception": eng.new_symexc(st, "src")})
             st.emit("failed_wait", exc=exc)
             return [("raise", exc, st)]
+        if n == "CompletionEventObj.is_set":
+            b = fresh("bool", "completion_is_set")
+            st.emit("completion_is_set", b=b.t)
+            return [("val", b, st)]
         if n == "CompletionEventObj.wait":
             # contract of CompletionEvent.wait(timeout) (C03.event.contract.wait): without a timeout it returns only once the event is set;
             # with one it may also return False with the event still unset
@@ -418,7 +422,12 @@ def create_checkpoint(chk, prefix, want):
         return orig_construct(cls, args, kwargs, st_)
     eng.construct = construct
 
+    # create_checkpoint has no loop; if one appears (e.g. a polling wait) there is no sidecar invariant for it: it is unrolled twice and the
+    # longer paths are cut - a violation found on an explored path is real (and replayable), the cut paths make the rest undecided
+    eng.unroll_bound, eng.allow_cut = 2, True
     res = eng.run(P.func(CREATE), [self_, upd, is_sync], st=st)
+    if eng.stats.get("cut_paths"):
+        chk.undecide(f"{prefix}.state.create_checkpoint: a loop without invariant was unrolled twice; {eng.stats['cut_paths']} longer path(s) were not explored")
     chk.paths += len(res)
     tcls, acls = P.cls("lambda_service.OperationType"), P.cls("lambda_service.OperationAction")
     is_ctx_done = z3.And(u["operation_type"].t == enum_sort(tcls)[1]["CONTEXT"], z3.Or(u["action"].t == enum_sort(acls)[1]["SUCCEED"], u["action"].t == enum_sort(acls)[1]["FAIL"]))
